@@ -14,7 +14,7 @@ pub fn prop() -> Prop {
         rule: "observer bodies H (15: the bound name next to ., ^., ^^., ^^^., another variable, another macro, a selected name) x enclosing contexts X (12: top level, map, filter, fold, sort_by, map_values, pipe stage, pipe-then-map, flat_map, pipes with a stage that returns its input unchanged) x binding forms F (27: a macro whose body binds its own name again; a macro whose body is a pipe and is used as a stage of another pipe; set, define, a macro whose body names another macro or variable that is bound later, earlier or re-bound at the place of use, --set variable, --set macro, nested both ways, shadowing an inner/outer/--set binding, unused names, a macro whose body reads a variable bound outside/inside, a macro reading ^) x placement (binding outside X / inside the functional argument) x bound values (4) x position 1..4 among --select options x with/without --split-by x 2 inputs; plus the same expression repeated in four --select positions; plus 3..130 variables and macros in scope at once (nested set/define, or --set given that many times); 10..1100 expansions of one macro in one record, most yielding nothing; shadowing where the inner and the outer value are numerically close (2^64-1 / 2^64, -2^63 / -2^63-1, 2^53+1 / 2^53, 0 / -0.0); non-trivial = the body reads something the binding had to carry over (^, another binding, a selected name) or sits after --split-by / other selections; distinct by construction",
         explanation: "each case is one run with two selections: the bound form and the form obtained by substituting the bound value / macro body by hand; both must have the same value (differential, no model needed) and both are also compared with the reference evaluator",
         assumptions: COMMON_ASSUMPTIONS.to_vec(),
-        guards: vec!["preset-variable-is-evaluated-before-any-record", "binding-names-beyond-ascii-letters", "many-macro-expansions-in-one-record", "shadowing-with-numerically-close-values", "many-bindings-in-scope", "parent-read-under-a-binding", "other-variable-survives", "other-macro-survives", "selected-name-survives", "after-split", "shadowing", "macro-body-reads-outer-variable", "pipe-stage-parent", "later-select-sees-same-parents"],
+        guards: vec!["bound-name-followed-by-a-comma", "preset-variable-is-evaluated-before-any-record", "binding-names-beyond-ascii-letters", "many-macro-expansions-in-one-record", "shadowing-with-numerically-close-values", "many-bindings-in-scope", "parent-read-under-a-binding", "other-variable-survives", "other-macro-survives", "selected-name-survives", "after-split", "shadowing", "macro-body-reads-outer-variable", "pipe-stage-parent", "later-select-sees-same-parents"],
         budget_s: (100, 1800),
         single_worker: false,
         run,
@@ -180,7 +180,15 @@ fn run(ctx: &mut Ctx) {
                                     for d in dummies.iter().take(pos) {
                                         args.push(d.to_string());
                                     }
-                                    args.push(format!("--select={}=bound", expr::show(&bound)));
+                                    // every third case spells the bound form with commas between the arguments (a name is then
+                                    // directly followed by a comma)
+                                    let comma = expr::Style { sep: ",", pad: "", dot_sugar: false };
+                                    if (hi + xi + pos) % 3 == 0 {
+                                        ctx.guard("bound-name-followed-by-a-comma");
+                                        args.push(format!("--select={}=bound", expr::show_with(&bound, &comma)));
+                                    } else {
+                                        args.push(format!("--select={}=bound", expr::show(&bound)));
+                                    }
                                     args.push(format!("--select={}=subst", expr::show(&substituted)));
                                     let case = Case::owned(args, input_text.clone().into_bytes());
                                     let obs = ctx.run(&case);
